@@ -300,8 +300,16 @@ func init() {
 	})
 
 	// ---------------- time ----------------
+	// the wall clock is a fixed instant shortly before this image's date
+	// (Unix 1_790_000_000, no monotonic reading): code comparing it with far
+	// past / far future deadlines behaves as in a native replay.
 	reg("time.Now", func(in *Interp, fr *frame, fn *ssa.Function, args []Value) Value {
-		return zero(fn.Signature.Results().At(0).Type())
+		z := zero(fn.Signature.Results().At(0).Type())
+		if st, ok := z.(Struct); ok && len(st) == 3 {
+			st[1] = ConstBV(64, uint64(1_790_000_000+62135596800))
+			return st
+		}
+		return z
 	})
 	reg("time.Since time.Until", func(in *Interp, fr *frame, fn *ssa.Function, args []Value) Value {
 		return ConstBV(64, 0)
